@@ -165,6 +165,19 @@ class C03(Check):
                     i += 1
                     if env.mine(i):
                         yield {"entries": [["a/f", "file", ""], e2, e3, e4], "dest": DESTS[i % 3], "open": OPENS[(i // 3) % 2], "pre": False, "api": "extractall"}
+        # destination None with the change of directory made after the archive was opened
+        for e in RED_ENTRIES:
+            for o in OPENS:
+                i += 1
+                if env.mine(i):
+                    yield {"entries": [e], "dest": "none-late", "open": o, "pre": False, "api": "extractall"}
+        for t1 in LINK_TEXTS:
+            for n2 in ("a/x", "a/a", "a/../x", "a"):
+                for (k2, t2) in (("file", ""), ("dir", ""), ("link", ".."), ("emptyfile", "")):
+                    for o in OPENS:
+                        i += 1
+                        if env.mine(i):
+                            yield {"entries": [["a", "link", t1], [n2, k2, t2]], "dest": "none-late", "open": o, "pre": False, "api": "extractall"}
         # chains: a link m that passes through another link l; l is re-pointed later (under the same or an equivalent name), then
         # m is used again - what m means changed although m itself was never touched (6 entries)
         for t1 in ("a", ".", "a/.."):
@@ -212,7 +225,7 @@ class C03(Check):
             st.tuples(name, text).map(lambda t: [t[0], "link", t[1]]),
             st.tuples(name, text).map(lambda t: [t[0], "link", t[1]]),
         )
-        return st.fixed_dictionaries({"entries": st.lists(entry, min_size=1, max_size=5), "dest": st.sampled_from(DESTS),
+        return st.fixed_dictionaries({"entries": st.lists(entry, min_size=1, max_size=5), "dest": st.sampled_from(DESTS + ["none-late"]),
                                       "open": st.sampled_from(OPENS), "pre": st.booleans(),
                                       "api": st.sampled_from(["extractall", "extractall", "extract"])})
 
@@ -256,12 +269,19 @@ class C03(Check):
         before = jail.snapshot(root, exclude=dest)
         cwd = os.getcwd()
         try:
+            late = False
             if case["dest"] == "abs":
                 os.chdir(J)
                 path = dest
             elif case["dest"] == "rel":
                 os.chdir(J)
                 path = "dest"
+            elif case["dest"] == "none-late":
+                # the archive is opened in the jail's parent, the process moves into the destination only then: "None" means the
+                # working directory at the time of extraction
+                os.chdir(J)
+                path = None
+                late = True
             else:
                 os.chdir(dest)
                 path = None
@@ -270,6 +290,8 @@ class C03(Check):
             try:
                 src = arc if case["open"] == "path" else io.BytesIO(data)
                 with py7zr.SevenZipFile(src, "r") as z:
+                    if late:
+                        os.chdir(dest)
                     if case["api"] == "extractall":
                         z.extractall(path)
                     else:
